@@ -15,6 +15,7 @@
 #ifndef IGRIS_VERIF_HV_H
 #define IGRIS_VERIF_HV_H
 
+#include <sys/time.h>
 #include <cstdint>
 #include <cstdio>
 #include <cstdlib>
@@ -133,12 +134,27 @@ namespace hv
         (void)!write(1, msg, sizeof msg - 1);
         _exit(97);
     }
+    // The limit is CPU time of the harness process (ITIMER_PROF): a loop that never ends burns CPU and is
+    // stopped after `sec` seconds however loaded the machine is, while an operation that merely waits for a
+    // time slice on a busy host is not mistaken for non-termination.  A generous wall-clock limit (10x)
+    // still catches an operation that blocks without using CPU.
     inline void arm(unsigned sec = 3)
     {
+        signal(SIGPROF, on_alarm);
         signal(SIGALRM, on_alarm);
-        alarm(sec);
+        struct itimerval it;
+        memset(&it, 0, sizeof it);
+        it.it_value.tv_sec = sec;
+        setitimer(ITIMER_PROF, &it, 0);
+        alarm(sec * 10);
     }
-    inline void disarm() { alarm(0); }
+    inline void disarm()
+    {
+        struct itimerval it;
+        memset(&it, 0, sizeof it);
+        setitimer(ITIMER_PROF, &it, 0);
+        alarm(0);
+    }
 
     struct out
     {
